@@ -993,7 +993,7 @@ static int _yr_scan_verify_literal_match(
             &xor_key);
       }
 
-      if (forward_matches == 0)
+      if (STRING_IS_ASCII(string) && forward_matches == 0)
       {
         forward_matches = _yr_scan_xor_compare(
             data + offset,
